@@ -192,19 +192,28 @@ def overrides(case):
                 for c in classes]
     obs = [snap()]
     err = None
+    # report 0 is MAIN_REPORT (addressed implicitly, as instructor code does); reports 1.. are separate Report objects
+    others = [None, Report(), Report()]
     for op in case:
         try:
+            rep = op[3] if op[0] == 'override' and len(op) > 3 else (op[1] if op[0] != 'override' and len(op) > 1 else 0)
+            kw = {'report': others[rep]} if rep else {}
             if op[0] == 'override':
-                classes[op[1]].override(**{FIELDS[f]: v for f, v in op[2]})
+                classes[op[1]].override(**kw, **{FIELDS[f]: v for f, v in op[2]})
             elif op[0] == 'clear':
-                clear_report()
+                if rep:
+                    others[rep].clear()
+                else:
+                    clear_report()
             else:
-                contextualize_report('x = 1')
+                contextualize_report('x = 1', **kw)
         except Exception as e:
             err = type(e).__name__ + ': ' + str(e)[:100]
         obs.append(snap())
     # leave the Feedback base class as found
     MAIN_REPORT.clear()
+    for o in others[1:]:
+        o.clear()
     for f, v in saved.items():
         if v == '__absent__':
             if f in Feedback.__dict__:
